@@ -51,7 +51,69 @@ CHECKS = {
              'proved for all trees; binary ensembles/switches only; batching workers and AsyncServer.__aexit__ not modelled; F19 and its '
              'switch variant are known findings (exit hang with multi-writer pipes).',
         ref='§5 C11', engine='E1-detsched+E4-processes+lean'),
+    'C15': dict(
+        technique='Lean 4 proof (structural induction over a tree model of RemoteException wrap / pickle / rebuild, nested EnsembleError results included) + exact differential comparison of the model\'s executable definitions with real pickle hops',
+        text='Theorems C15_roundtrip (any hop list, re-raised or forwarded at each hop: class and args unchanged, '
+             'is_remote_exception, remote text contains the originally formatted traceback), C15_forward_identical '
+             '(forwarding hops return the identical exception), C15_text_grows, C15_ensemble (nested exceptions preserved '
+             'hereditarily with identical text), C15_defined, C15_explicit_tb, C15_no_traceback hold for every class, '
+             'argument tuple, traceback text, cause chain, process name, hop list and nesting depth of the model; '
+             'Legacy.repaired_eq_spec / F22_witness / C15_ensemble_pinned_partial settle object sharing under pickle\'s memo '
+             '(repaired vs pinned _rebuild_exception). The model '
+             'is tied to the current /repo on every run: generated exception graphs go through real '
+             'pickle.loads(pickle.dumps(RemoteException(e))) hops and through the compiled Lean definitions (drv remoteexc); '
+             'class, args, structure and the FULL remote text of every exception after every hop must be equal; a monitor '
+             'evaluates the property statement on the real objects.',
+        note='Lean 4 kernel + axioms {propext, Classical.choice, Quot.sound}; hand-written model tied to /repo by differential '
+             'runs on the cases generated per run (sampled); pickle (class/args of a picklable exception survive, traceback and '
+             'cause do not) and traceback.format_exception (cause chain ++ own part) are modelled, not verified, and re-checked '
+             'by the exact text comparison; hops are in-process pickle round trips with the process name changed per hop; '
+             'EnsembleError message text compared modulo the RemoteException(...) wrapper; Legacy/RemoteExc.lean keeps the '
+             'pinned behaviour of finding F22 (shared exception object, pickle memo) with a witness.',
+        ref='§5 C15', engine='E3-differential+lean'),
+    'C16': dict(
+        technique='Lean 4 proof (inductive invariants, decreasing measure and progress over an LTS model of async_fifo_stream; outcome of both the async and the sync model shown to be the same function of the configuration) + trace refinement and differential runs of the real async code under a virtual-time event loop / deterministic scheduler against the real sync code',
+        text='C16_async_eq_spec (after every action list the async model has delivered exactly element i paired with '
+             'element i\'s own outcome, i < k; complete runs deliver all n; worker entered exactly once per delivered '
+             'non-rejected element), C16_async_eq_sync (any complete run of the async model and any complete run of the '
+             'fifo_stream model on configurations agreeing on input, source ending, preprocessor plan, worker failure '
+             'plan and return_exceptions deliver the same pairs and end the same way: both equal outcome c), '
+             'C16_pre_reject_own_exception, C16_async_first_failure / _source_failure, C16_async_terminates / _progress '
+             '/ _completes (the async iteration cannot hang), for every completion order, interleaving, capacity and '
+             'failure plan. Tie on every run: the real async_fifo_stream and AsyncParmapperAsync run under a virtual-time '
+             'asyncio loop (all completion orders of n<=4/5 calls enumerated, boundary and random cases), their event '
+             'traces are validated against the model by the Lean driver and the model\'s delivered values / outcome are '
+             'compared with the real outputs; the same case runs through the real fifo_stream / Stream.parmap and a '
+             'monitor compares values, exception objects, order, pairing and ending; AsyncServer.stream/call and '
+             'AsyncParmapper run against Server.stream/call and Stream.parmap under the deterministic scheduler '
+             '(monitors).',
+        note='Lean 4 kernel + axioms {propext, Classical.choice, Quot.sound}; hand-written models (AFifo, Fifo) tied to '
+             '/repo on the cases explored per run (sampled + small exhaustive families, not all inputs); asyncio.Queue, '
+             'Task.cancel, futures modelled, not verified; the thread-mixing variants (AsyncServer, AsyncParmapper) are '
+             'covered in Lean only through the async_fifo_stream/fifo_stream theorems they delegate to, and by monitors '
+             'under the scheduler; process servlets/executors not run; asyncgen GC finalisation not exercised. Requires '
+             'fixes F1 and F7a (fixes/): on the unrepaired tree the check reports the violations with replays.',
+        ref='§5 C16', engine='E2-vloop+E1-detsched+lean'),
 }
+
+CHECKS['C06'] = dict(
+    technique='Lean 4 proof (inductive invariants over an LTS model of the server ledger: mutual exclusion, capacity, id uniqueness, conservation) + schedule-controlled trace refinement against the real Server',
+    text='C06_bound (ledger size <= capacity in every reachable state, any number of callers, any interleaving with the '
+         'gather/notifier threads, time-outs at any moment), C06_reject_clean, C06_backpressure_never_waits, '
+         'C06_entries_in_flight + C06_slots_returned (no response dropped; backlog zero at rest). Tie: real Server under '
+         'the deterministic scheduler, public backlog sampled at every scheduling step, small cases replayed through the '
+         'Lean model; monitors: overshoot, slot leak, waited longer than the timeout (timed-wait accounting).',
+    note=E1 + 'time is not modelled in Lean (wait bound evaluated on the real code only); AsyncServer not driven here.',
+    ref='§5 C06', engine='E1-detsched+lean')
+CHECKS['C07'] = dict(
+    technique='Lean 4 proof (invariants of the ledger LTS with deadline expiry enabled at every step) + schedule-controlled trace refinement with early timer firing',
+    text='C07_gather_alive (the gather thread never dies, for every position of the cancellation relative to its '
+         'check/set steps), C07_outcome_final, C07_cancelled_stays (late result discarded), '
+         'C07_slot_of_abandoned_returned; the unguarded model has a kernel-checked witness of the death (F5). Tie: '
+         'deadlines are virtual and fired early at random points; monitors: gather thread dead, follow-up request '
+         'with unbounded deadline unanswered, exit not returning, leaked threads.',
+    note=E1 + 'shutdown itself (C07 "still shuts down normally") is exercised by the scenario\'s __exit__ and proved in C11\'s model.',
+    ref='§5 C07', engine='E1-detsched+lean')
 
 NOT_YET = 'check not built yet in this round (model and tie planned in DESIGN.md §5); not claimed'
 
@@ -84,6 +146,7 @@ def main():
             dict(name='lean', path='lean/', serves_properties=sorted(CHECKS), kind_free_text='Lean 4 models, theorems, compiled trace-validation driver (drv)'),
             dict(name='E1-detsched', path='harness/detsched.py', serves_properties=[p for p in sorted(CHECKS)],
                  kind_free_text='deterministic cooperative scheduler for real Python threads + virtual clock'),
+            dict(name='E2-vloop', path='harness/vloop.py', serves_properties=[p for p in sorted(CHECKS) if p == 'C16'], kind_free_text='virtual-time asyncio event loop (pure-asyncio code; completion order decided by generated durations; exact hang detection)'),
         ],
         checks=checks,
         notes='See DESIGN.md. KNOWN_FINDINGS.txt lists known: and fixed: entries.',
